@@ -1,4 +1,5 @@
 import Norad.Lemmas.C12
+import Norad.Lemmas.C02
 import Norad.Props.C11
 /-!
 # C12 — glif documents breaking the structure rules are rejected, legal ones accepted
@@ -598,11 +599,161 @@ theorem attr_order_irrelevant (s : PS) {l₁ l₂ : List Attr} (hp : l₁.Perm l
     (unfold step; cases s.mode <;>
       simp +decide only [stepBody, bodyEmpty, stepOutline, stepContour, stepLib, stepNote, ea, eg, ep, if_true, if_false])
 
--- OPEN (same proof pattern, not carried out): attribute-order independence for `glyph`, `advance`, `unicode`,
---   `image`, `component` and the `contour` start tag.
--- OPEN: legal_accepted : LegalDoc d → ∃ g, parseGlif rd (Spec.flatten d) = .ok g  (for self-closing content-free
---   elements, non-self-closed `glyph`, no `<note/>`).  The correspondence run evaluates exactly this statement on
---   every generated document (rule `rejected-legal`); the kernel-checked part is the set of per-rule theorems
---   above and the `decide` instances below.
+-- Second phase: `advance_attr_order_irrelevant`, `unicode_attr_order_irrelevant`, `contour_attr_order_irrelevant`,
+--   `glyph_attr_order_irrelevant` (section "attribute order, remaining loops" below).
+-- OPEN (same pattern; the key enumeration is nested through `TKey`, 36 sub-cases): `image`, `component`.
+-- OPEN: legal_accepted for the whole grammar `Spec.flatten d` (any element order, comments anywhere, both versions).
+--   Kernel-checked instead (second phase, `Lemmas/C02.lean`, listed in the audit): acceptance element family by element
+--   family, each for ANY parser state at the right level (= any position of any document) and any spelling `shw` of the
+--   numbers that Rust's parser reads back: `step_advance`, `reach_unicodes`, `step_image`, `step_anchor`/`reach_anchors`,
+--   `step_guideline`/`reach_guidelines`, `step_component`/`reach_components`, `step_point`/`reach_points`,
+--   `reach_contour`/`reach_contours`, `reach_outline`, `reach_lib`, `reach_note`; and their composition for the
+--   canonical element order, `legal_accepted_canonical` below.  The correspondence run evaluates the full statement on
+--   every generated document (rule `rejected-legal`).
+
+/-! ### attribute order, remaining loops -/
+
+section
+variable (rd : Str → Option Nat)
+
+
+theorem advKeyOf_inj {s t : Str} {k : AdvKey} (hs : advKeyOf s = some k) (ht : advKeyOf t = some k) : s = t := by
+  unfold advKeyOf at hs ht
+  repeat' split at hs
+  all_goals repeat' split at ht
+  all_goals first
+    | (simp at hs; done)
+    | (simp at ht; done)
+    | (simp only [Option.some.injEq] at hs ht; subst hs; first | (cases ht; simp_all) | cases ht)
+
+theorem advApply_comm (acc : Nat × Nat) (k₁ k₂ : AdvKey) (v₁ v₂ : Str) (hk : k₁ ≠ k₂) :
+    (advApply rd k₁ v₁ acc).bind (advApply rd k₂ v₂) = (advApply rd k₂ v₂ acc).bind (advApply rd k₁ v₁) := by
+  cases k₁ <;> cases k₂ <;> first | exact absurd rfl hk | skip
+  all_goals
+    simp only [advApply]
+    repeat' split
+    all_goals simp_all [advApply]
+
+theorem advStep_comm (acc : Nat × Nat) (a b : Attr) (hab : a.1 ≠ b.1) :
+    (advStep rd acc a).bind (fun s => advStep rd s b) = (advStep rd acc b).bind (fun s => advStep rd s a) := by
+  unfold advStep
+  cases ha : advKeyOf a.1 with
+  | none =>
+    cases hb : advKeyOf b.1 with
+    | none => simp
+    | some kb => cases h : advApply rd kb b.2 acc <;> simp [ha, h]
+  | some ka =>
+    cases hb : advKeyOf b.1 with
+    | none => cases h : advApply rd ka a.2 acc <;> simp [hb, h]
+    | some kb =>
+      have hk : ka ≠ kb := fun h => hab (advKeyOf_inj ha (h ▸ hb))
+      have := advApply_comm rd acc ka kb a.2 b.2 hk
+      simpa [ha, hb] using this
+
+/-- **attr_order_irrelevant** (advance) -/
+theorem advance_attr_order_irrelevant {l₁ l₂ : List Attr} (hp : l₁.Perm l₂)
+    (hd : (l₁.map (fun e => e.1)).Nodup) : parseAdvance rd l₁ = parseAdvance rd l₂ := by
+  unfold parseAdvance
+  rw [foldAttrs_perm _ (advStep_comm rd) hp hd]
+
+/-- steps that accept one attribute name only commute trivially: of two different names one is refused -/
+theorem uniStep_comm (acc : List Nat) (a b : Attr) (hab : a.1 ≠ b.1) :
+    (uniStep acc a).bind (fun s => uniStep s b) = (uniStep acc b).bind (fun s => uniStep s a) := by
+  unfold uniStep
+  by_cases ha : a.1 = sHex <;> by_cases hb : b.1 = sHex
+  · exact absurd (ha.trans hb.symm) hab
+  · simp only [ha, hb, if_true, if_false]
+    cases parseHex a.2 <;> simp
+  · simp only [ha, hb, if_true, if_false]
+    cases parseHex b.2 <;> simp
+  · simp [ha, hb]
+
+/-- **attr_order_irrelevant** (unicode) -/
+theorem unicode_attr_order_irrelevant (cps : List Nat) {l₁ l₂ : List Attr} (hp : l₁.Perm l₂)
+    (hd : (l₁.map (fun e => e.1)).Nodup) : parseUnicode cps l₁ = parseUnicode cps l₂ := by
+  unfold parseUnicode
+  rw [foldAttrs_perm _ uniStep_comm hp hd]
+
+theorem ctStep_comm (ver : Nat) (seen : List Str) (acc : Option Str) (a b : Attr) (hab : a.1 ≠ b.1) :
+    (ctStep ver seen acc a).bind (fun s => ctStep ver seen s b) = (ctStep ver seen acc b).bind (fun s => ctStep ver seen s a) := by
+  unfold ctStep
+  by_cases hv : ver = 1
+  · simp [hv]
+  · by_cases ha : a.1 = sIdentifier <;> by_cases hb : b.1 = sIdentifier
+    · exact absurd (ha.trans hb.symm) hab
+    · simp only [hv, ha, hb, if_true, if_false]
+      cases readIdent ver seen a.2 <;> simp
+    · simp only [hv, ha, hb, if_true, if_false]
+      cases readIdent ver seen b.2 <;> simp
+    · simp [hv, ha, hb]
+
+/-- **attr_order_irrelevant** (contour start tag) -/
+theorem contour_attr_order_irrelevant (ver : Nat) (seen : List Str) {l₁ l₂ : List Attr} (hp : l₁.Perm l₂)
+    (hd : (l₁.map (fun e => e.1)).Nodup) : parseContourAttrs ver seen l₁ = parseContourAttrs ver seen l₂ := by
+  unfold parseContourAttrs
+  rw [foldAttrs_perm _ (ctStep_comm ver seen) hp hd]
+
+
+theorem gKeyOf_inj {s t : Str} {k : GKey} (hs : gKeyOf s = some k) (ht : gKeyOf t = some k) : s = t := by
+  unfold gKeyOf at hs ht
+  repeat' split at hs
+  all_goals repeat' split at ht
+  all_goals first
+    | (simp at hs; done)
+    | (simp at ht; done)
+    | (simp only [Option.some.injEq] at hs ht; subst hs; first | (cases ht; simp_all) | cases ht)
+
+theorem gApply_comm  (acc : GlyphAcc) (k₁ k₂ : GKey) (v₁ v₂ : Str) (hk : k₁ ≠ k₂) :
+    (gApply k₁ v₁ acc).bind (gApply k₂ v₂) = (gApply k₂ v₂ acc).bind (gApply k₁ v₁) := by
+  cases k₁ <;> cases k₂ <;> first | exact absurd rfl hk | skip
+  all_goals
+    simp only [gApply]
+    repeat' split
+    all_goals simp_all [gApply]
+
+theorem gStep_comm  (acc : GlyphAcc) (a b : Attr) (hab : a.1 ≠ b.1) :
+    (gStep acc a).bind (fun s => gStep s b) = (gStep acc b).bind (fun s => gStep s a) := by
+  unfold gStep
+  cases ha : gKeyOf a.1 with
+  | none =>
+    cases hb : gKeyOf b.1 with
+    | none => simp
+    | some kb => cases h : gApply kb b.2 acc <;> simp [ha, h]
+  | some ka =>
+    cases hb : gKeyOf b.1 with
+    | none => cases h : gApply ka a.2 acc <;> simp [hb, h]
+    | some kb =>
+      have hk : ka ≠ kb := fun h => hab (gKeyOf_inj ha (h ▸ hb))
+      have := gApply_comm  acc ka kb a.2 b.2 hk
+      simpa [ha, hb] using this
+
+/-- **attr_order_irrelevant** (glyph start tag) -/
+theorem glyph_attr_order_irrelevant {l₁ l₂ : List Attr} (hp : l₁.Perm l₂)
+    (hd : (l₁.map (fun e => e.1)).Nodup) : parseGlyphAttrs (some l₁) = parseGlyphAttrs (some l₂) := by
+  unfold parseGlyphAttrs
+  simp only [foldAttrs_perm _ gStep_comm hp hd]
+
+
+end
+
+/-! ### legal documents are accepted -/
+
+section
+variable {f : Fmt} {rd : Str → Option Nat} {nc : Color → Color} {ok : Nat → Prop}
+
+/-- **legal_accepted** (canonical element order): for every glyph description that obeys the rules (`ValidGlyph`:
+    valid names, identifiers valid and unique across the five kinds, every contour `C11.accepts`-legal and non-empty,
+    angles in range, image name a single component, code points scalar values) the document rendered from it — content-free
+    elements self-closing, `glyph`/`note` not self-closed, numbers and colours in ANY spelling `f` that reads back
+    (`Codec`), any note, any lib — is accepted, and the returned glyph is the one described (`preG`). -/
+theorem legal_accepted_canonical (hc : Codec f rd nc ok) {g : Glyph} (hv : ValidGlyph ok g) (hobj : NoObjectLibs g)
+    (hkey : dictGet objectLibsKey (reindentDict f.indent g.lib) = none) :
+    parseGlif rd (encodeGlif f g) = .ok (preG f nc g) := by
+  rw [parse_encode hc hv]
+  have hw : writtenLib g = g.lib := by simp [writtenLib, dump_empty_of_no_libs hobj]
+  have : dictGet objectLibsKey (preG f nc g).lib = none := by simpa [preG, hw] using hkey
+  simp [loadObjectLibs, this]
+
+end
 
 end Glif
